@@ -11,6 +11,7 @@ import math
 from mc import canon, charts, core, fileio, starts
 
 ID = "C13"
+LARGE = dict(quick="charts of 300 notes, every rate and pair", thorough="charts of 300 and 1100 notes")
 TITLE = "Rate change scales time uniformly, composes, and survives a write"
 RULE = (
     "history BFS: a state is a distinct canonical chart/mapset reached by (start state, earlier operation, rate[, second rate]); "
